@@ -6,6 +6,7 @@ import datetime as dt
 from spverif.core.util import attempt, exc_sig
 from spverif.ref import cds as R
 
+SCRIBBLE = True
 ID = "C14"
 LEVEL = "exploration"
 SHARDS = {"quick": 1, "thorough": 16}
@@ -164,6 +165,8 @@ def selftest(ctx):
 
 
 def run(ctx):
+    from spverif.san import scribble
+    scribble.install()
     r = ctx.rng
     pool = (0, 1, 999, 1000, 43_200_000, 86_399_999)
     for d in range(65536):
@@ -230,6 +233,7 @@ def run(ctx):
 
 
 def conclude(ctx):
+    ctx.require(ctx.extra.get("hostile_caller_scribbled_pack_results", 0) > 0, "hostile-caller sanitizer scribbled no pack() result")
     for c in ("stamp/pre1970", "stamp/post1970", "from_datetime/pre1970/whole_ms", "from_datetime/post1970/whole_ms", "from_datetime/pre1970/sub_ms",
               "from_datetime/post1970/sub_ms", "add/overflow", "add/exactly_midnight", "add/carry", "add/no_carry", "monotonic", "first_octet"):
         ctx.require(ctx.classes.get(c, 0) > 0, f"class {c} empty")
